@@ -883,6 +883,41 @@ fn message_probe() -> Tally {
             texts.push((kind.to_string(), a.to_string(), text));
         }
     }
+    // one diagnostic per leaf also when one leaf "explains" another: an unknown name with a
+    // suggestion next to the missing member it suggests, at the same location
+    {
+        let mk = || {
+            Error::multiple(vec![
+                Error::unknown_field_with_alts("levl", &["level", "other"]).at("opts"),
+                Error::missing_field("level").at("opts"),
+                Error::unknown_field_with_alts("levl", &["level", "other"]).at("opts"),
+                Error::duplicate_field("level").at("opts"),
+                Error::missing_field("level").at("opts"),
+            ])
+            .at("outer")
+        };
+        t.evaluations += 1;
+        t.nontrivial += 1;
+        t.hit("message_probe");
+        let leaves = mk().flatten().len();
+        let diags = syn::Error::from(mk()).into_iter().count();
+        let written = mk().write_errors().to_string().matches("compile_error").count();
+        if leaves != 5 || diags != 5 || written != 5 {
+            t.violate(Violation { key: format!("C04 message implied :: {leaves}/{diags}/{written}"), what: format!("five leaves of which some explain others (unknown `levl` with a suggestion, missing `level`, twice, and a duplicate): len/flatten {leaves}, diagnostics {diags}, compile_error! items {written} - expected 5 each"), case: json!({"engine": "message-probe"}), detail: json!({}) });
+        }
+    }
+    // a location is kept as given: raw identifiers, empty and odd segments
+    for seg in ["r#type", "r#a", "type", "", " ", "a/b", "a b", "0", "r#", "é"] {
+        t.evaluations += 1;
+        t.hit("message_probe");
+        let e = Error::custom("m").at(seg).at("outer");
+        let want = format!("m at outer/{seg}");
+        let got = e.to_string();
+        let flat: Vec<String> = Error::multiple(vec![Error::custom("m").at(seg), Error::custom("n")]).at("outer").flatten().into_iter().map(|l| l.to_string()).collect();
+        if got != want || flat.first() != Some(&want) {
+            t.violate(Violation { key: format!("C04 message location `{seg}` :: {got}"), what: format!("a leaf located at `{seg}` then `outer` displays `{got}` (flattened from a bundle: {flat:?}), expected `{want}`"), case: json!({"engine": "message-probe"}), detail: json!({}) });
+        }
+    }
     for (i, (k1, a1, t1)) in texts.iter().enumerate() {
         for (k2, a2, t2) in texts.iter().skip(i + 1) {
             // the two unknown-field spellings of one name may coincide (no alternative is close)
